@@ -35,6 +35,17 @@ CHECKS['C06'] = dict(
     note='token extents and newline offsets are read off the text; end-coordinate convention per lexer family as stated',
     ref='6/C06')
 
+CHECKS['C03'] = dict(
+    technique='TLA+ denotational semantics of lark EBNF with the documented shaping (EBNF.tla, known answers from the docs checked by TLC) + trace validation of every tree returned by every parser/lexer pair and option setting',
+    text='EBNF.tla defines, independently of lark\'s BNF compilation and tree builder, the set of shaped trees of an input for a grammar as written (?, !, _, aliases, [..] placeholders, ? * + ~n..m, groups); TLC first checks it against the examples of docs/tree_construction.md and the count laws, then judges every tree the real lark returns on random EBNF grammars (depth<=3, <=3 rules) under Earley (3 lexers), LALR (2 lexers) and CYK with keep_all_tokens/maybe_placeholders on and off: the tree must be one of the shaped derivations, hence all engines agree when there is one.',
+    note='token level (single-character terminals), grammars with derivation cycles excluded (the oracle enumerates derivations); conventions (a)-(c) of DESIGN 6/C03',
+    ref='6/C03')
+CHECKS['C04'] = dict(
+    technique='same EBNF.tla oracle: TLC expands the _ambig nodes of the real ambiguity=explicit result and compares the set with the set of shaped derivations; cyclic BNF grammars: every tree checked to be a derivation tree (CFG-level validity operator)',
+    text='For every grammar/input/option setting of the EBNF family and of F_bnf/F_rand (acyclic) TLC computes Expand(result) and the set of all shaped derivations from EBNF.tla: none may be missing, none spurious; CollapseAmbiguities must agree with the expansion; for cyclic grammars parsing must terminate within the budget and every expanded tree must be a derivation tree of the input.',
+    note='completeness compared up to the first-empty-spelling convention (Canon); derivation sets above the size TLC enumerates comfortably are avoided by short inputs (<=5 tokens)',
+    ref='6/C04')
+
 NOT_APPLICABLE = []
 
 
